@@ -1,7 +1,7 @@
 (* C18: a syntactic sufficient condition for the route guard [canon_stable]:
    a pattern without white space is stable under CanonicalPath. *)
 From Coq Require Import ZArith List Bool Lia.
-From V Require Import Bytes StrGo BytesLemmas C18Tables C18TableProofs.
+From V Require Import Bytes StrGo BytesLemmas CanonProofs C18Tables C18TableProofs.
 Import ListNotations.
 Open Scope Z_scope.
 
@@ -235,11 +235,12 @@ Proof.
       rewrite clean_step_char. cbn [bytes_eqb orb]. rewrite app_nil_r. apply rev_involutive.
 Qed.
 
-(* CanonicalPath leaves alone what it produces from such segments *)
-Lemma canon_fix_plain segs : shape segs ->
-  canonical_path (SLASH :: join_with SLASH segs) = SLASH :: join_with SLASH segs.
+(* a pass of CanonicalPath (canonical_once, the body of its loop) leaves alone what it produces from
+   such segments; hence so does CanonicalPath (CanonProofs.canonical_path_of_fixed) *)
+Lemma canon_fix_plain_once segs : shape segs ->
+  canonical_once (SLASH :: join_with SLASH segs) = SLASH :: join_with SLASH segs.
 Proof.
-  intros S. unfold canonical_path. rewrite (okb_fixed _ (shape_bytes _ S)).
+  intros S. unfold canonical_once. rewrite (okb_fixed _ (shape_bytes _ S)).
   rewrite Z.eqb_refl.
   pose proof (clean_rooted_shape segs [] S (or_introl eq_refl)) as C. rewrite app_nil_r in C. rewrite C.
   destruct segs as [|a segs]; [reflexivity|].
@@ -247,10 +248,14 @@ Proof.
   rewrite join_ends by (try discriminate; apply S). reflexivity.
 Qed.
 
-Lemma canon_fix_slash segs : shape segs -> segs <> [] ->
-  canonical_path (SLASH :: join_with SLASH segs ++ [SLASH]) = SLASH :: join_with SLASH segs ++ [SLASH].
+Lemma canon_fix_plain segs : shape segs ->
+  canonical_path (SLASH :: join_with SLASH segs) = SLASH :: join_with SLASH segs.
+Proof. intros S. apply canonical_path_of_fixed, canon_fix_plain_once, S. Qed.
+
+Lemma canon_fix_slash_once segs : shape segs -> segs <> [] ->
+  canonical_once (SLASH :: join_with SLASH segs ++ [SLASH]) = SLASH :: join_with SLASH segs ++ [SLASH].
 Proof.
-  intros S N. unfold canonical_path.
+  intros S N. unfold canonical_once.
   assert (Forall okb (SLASH :: join_with SLASH segs ++ [SLASH])) as B.
   { change (Forall okb ((SLASH :: join_with SLASH segs) ++ [SLASH])). apply Forall_app.
     split; [apply shape_bytes; exact S|constructor; [exact okb_slash|constructor]]. }
@@ -262,12 +267,16 @@ Proof.
   destruct a as [|x a]; [contradiction|]. cbn [join_with]. destruct segs; reflexivity.
 Qed.
 
+Lemma canon_fix_slash segs : shape segs -> segs <> [] ->
+  canonical_path (SLASH :: join_with SLASH segs ++ [SLASH]) = SLASH :: join_with SLASH segs ++ [SLASH].
+Proof. intros S N. apply canonical_path_of_fixed, canon_fix_slash_once; assumption. Qed.
+
 Definition no_space (p : bytes) : bool := forallb (fun b => negb (is_space b)) p.
 
-Lemma canon_shape p0 : no_space p0 = true ->
+Lemma canon_shape_once p0 : no_space p0 = true ->
   exists segs, shape segs /\
-    (canonical_path p0 = SLASH :: join_with SLASH segs \/
-     (segs <> [] /\ canonical_path p0 = SLASH :: join_with SLASH segs ++ [SLASH])).
+    (canonical_once p0 = SLASH :: join_with SLASH segs \/
+     (segs <> [] /\ canonical_once p0 = SLASH :: join_with SLASH segs ++ [SLASH])).
 Proof.
   intros NSp.
   assert (Forall okb (to_lower (trim_space p0))) as B.
@@ -275,7 +284,7 @@ Proof.
     unfold no_space in NSp. rewrite forallb_forall in NSp. apply Forall_forall. intros b Ib.
     apply lower_okb. apply negb_true_iff. apply NSp. exact Ib. }
   destruct (to_lower (trim_space p0)) as [|c p] eqn:Ep.
-  - exists []. split; [split; constructor|]. left. unfold canonical_path. rewrite Ep. reflexivity.
+  - exists []. split; [split; constructor|]. left. unfold canonical_once. rewrite Ep. reflexivity.
   - pose (p' := if Z.eqb c SLASH then c :: p else SLASH :: c :: p).
     assert (Forall okb p') as B'.
     { unfold p'. destruct (Z.eqb c SLASH); [exact B|constructor; [exact okb_slash|exact B]]. }
@@ -287,17 +296,31 @@ Proof.
       - constructor. }
     assert (shape segs) as S.
     { split; eapply Forall_impl; try exact K; intros a [A1 A2]; assumption. }
-    assert (canonical_path p0 =
+    assert (canonical_once p0 =
             if ends_with SLASH p' && negb (bytes_eqb (SLASH :: join_with SLASH segs) [SLASH])
             then (SLASH :: join_with SLASH segs) ++ [SLASH] else SLASH :: join_with SLASH segs) as CE.
-    { unfold canonical_path. rewrite Ep. reflexivity. }
+    { unfold canonical_once. rewrite Ep. reflexivity. }
     exists segs. split; [exact S|]. rewrite CE.
     destruct (ends_with SLASH p' && negb (bytes_eqb (SLASH :: join_with SLASH segs) [SLASH])) eqn:Cnd.
     + right. split; [|reflexivity]. intros Z0. rewrite Z0 in Cnd. cbn in Cnd. rewrite andb_false_r in Cnd. discriminate.
     + left. reflexivity.
 Qed.
 
-(* a pattern without white space is stable under CanonicalPath: the guard of the route theorems holds *)
+(* without white space one pass is already stable, so CanonicalPath is that pass
+   (CanonProofs.canonical_path_stable_same) *)
+Lemma canon_shape p0 : no_space p0 = true ->
+  exists segs, shape segs /\
+    (canonical_path p0 = SLASH :: join_with SLASH segs \/
+     (segs <> [] /\ canonical_path p0 = SLASH :: join_with SLASH segs ++ [SLASH])).
+Proof.
+  intros H. destruct (canon_shape_once p0 H) as [segs [S [E|[N E]]]]; exists segs; (split; [exact S|]).
+  - left. rewrite canonical_path_stable_same; [exact E|]. rewrite E. apply canon_fix_plain_once, S.
+  - right. split; [exact N|]. rewrite canonical_path_stable_same; [exact E|]. rewrite E.
+    apply canon_fix_slash_once; assumption.
+Qed.
+
+(* a pattern without white space is stable under CanonicalPath: the guard of the route theorems holds
+   (since the fix "CanonicalPath is idempotent" it holds for every pattern: CanonProofs.canonical_path_idem) *)
 Theorem no_space_canon_stable p : no_space p = true -> canon_stable p = true.
 Proof.
   intros H. unfold canon_stable. apply bytes_eqb_eq.
